@@ -330,10 +330,49 @@ pub fn cmd_explore(opt: &HashMap<String, String>) -> i32 {
     // seeded, depth-bounded exploration from states the closure cannot reach
     let no_seeds = opt.contains_key("no-seeds");
     if !no_seeds && !verdict_reached(&phases) {
-        let seed_list = seeds(&u, thorough, fault_only);
+        let seed_list = seeds(&u, thorough, fault_only, &skips);
         for (seed_idx, sd) in seed_list.into_iter().enumerate() {
             if verdict_reached(&phases) {
                 break;
+            }
+            if let Some((at, why)) = &sd.broken {
+                // the deterministic seed script itself breaks the cache on this tree
+                let crashed = *at >= sd.root.prefix.len();
+                let (hist, op) = if crashed { (sd.root.prefix.clone(), None) } else { (sd.root.prefix[..*at].to_vec(), Some(sd.root.prefix[*at])) };
+                let props = (p(7) | p(4) | p(6) | op.map(op_owner).unwrap_or(0) | if crashed && why.contains("no progress") { p(2) } else { 0 }) & sel;
+                let mut result = ExploreResult {
+                    states: 1,
+                    transitions: 1,
+                    depth_completed: 0,
+                    fixpoint: false,
+                    cap_hit: Some("the seed script does not complete coherently".into()),
+                    stats: Stats::default(),
+                    violations: vec![],
+                    machinery: None,
+                    samples: vec![],
+                    level_sizes: vec![],
+                    wall_s: 0.0,
+                    novel: vec![],
+                    fault_states: 0,
+                    known: Default::default(),
+                };
+                result.stats.transitions = 1;
+                result.stats.executions = 1;
+                if props != 0 {
+                    result.violations.push(VRec {
+                        props,
+                        rule: if crashed { "containment.crash" } else { "C07.structure" },
+                        detail: if crashed { format!("building this state: {why}") } else { format!("after the operation the list/table structure is incoherent: {why}") },
+                        root: 0,
+                        hist,
+                        op,
+                        mode: if op.is_some() { "transition" } else { "state" },
+                    });
+                }
+                let mut root = sd.root.clone();
+                root.prefix = vec![];
+                phases.push(Phase { name: format!("seed {}", sd.root.label), result, roots: vec![root], alpha_len: 0, nkeys, fault_props: 0, u: u.clone() });
+                continue;
             }
             let ctx_s = Ctx { u: &u, sel, growth_bound: None, fault_props: 0, extra_ids: sd.extra_ids.clone(), known_rules: known_rules.clone() };
             let so = StateOpts {
@@ -638,7 +677,28 @@ pub fn finish(
                 if *cnt <= 2 {
                     let path = write_replay(replay_dir, &pname, &ph.u, ph.nkeys, big, &ph.roots[vr.root], vr, ph.fault_props);
                     lines.push(format!("VIOLATION property={} replay={}", pname, path));
-                    lines.push(format!("  rule {}: {}", vr.rule, vr.detail));
+                    let mut d = vr.detail.clone();
+                    if d.len() > 900 {
+                        let mut cut = 900;
+                        while !d.is_char_boundary(cut) {
+                            cut -= 1;
+                        }
+                        d.truncate(cut);
+                        d.push_str(" ... (full text in the replay file)");
+                    }
+                    lines.push(format!("  rule {}: {}", vr.rule, d));
+                    let hl = show_history(&ph.u, &ph.roots[vr.root].cfg, &vr.hist, vr.op.as_ref());
+                    if hl.len() > 40 {
+                        // long seed scripts: first and last lines only
+                        for l in hl[..6].iter() {
+                            lines.push(format!("    {l}"));
+                        }
+                        lines.push(format!("    ... ({} more steps, see the replay file) ...", hl.len() - 16));
+                        for l in hl[hl.len() - 10..].iter() {
+                            lines.push(format!("    {l}"));
+                        }
+                        continue;
+                    }
                     for l in show_history(&ph.u, &ph.roots[vr.root].cfg, &vr.hist, vr.op.as_ref()) {
                         lines.push(format!("    {l}"));
                     }
